@@ -248,11 +248,11 @@ def execute(plan: dict) -> dict:
 
 # ----------------------------------------------------------------------------------------------
 
-NEEDS = {"sb2_config": "sb2", "fork": "sb2", "sb2": "sb2", "mbi_class": "mbi", "mbi_config": "mbi", "otfad": "otfad", "iee": "iee", "bee": "bee", "hab": "hab", "hab_rt": "habrt", "bee_config": "bee", "iee_config": "iee", "sb2_keywrap": "sb2"}
+NEEDS = {"sb2_config": "sb2", "fork": "sb2", "sb2": "sb2", "mbi_class": "mbi", "mbi_config": "mbi", "otfad": "otfad", "iee": "iee", "bee": "bee", "hab": "hab", "hab_rt": "habrt", "bee_config": "bee", "iee_config": "iee", "sb2_keywrap": "sb2", "hab_full": "habfull"}
 
 
 def gen_op(rng: random.Random, allow_fork: bool = True) -> dict:
-    kind = rng.choice(["sb2"] * 5 + ["sb2_config"] * 2 + ["sb2_keywrap"] + ["mbi_class"] * 2 + ["mbi_config"] * 2 + ["otfad"] * 3 + ["iee"] * 3 + ["bee"] * 4 + ["bee_config"] * 2 + ["iee_config"] * 2 + ["hab"] * 2 + ["hab_rt"] * 2 + (["fork"] if allow_fork else []))
+    kind = rng.choice(["sb2"] * 5 + ["sb2_config"] * 2 + ["sb2_keywrap"] + ["mbi_class"] * 2 + ["mbi_config"] * 2 + ["otfad"] * 3 + ["iee"] * 3 + ["bee"] * 4 + ["bee_config"] * 2 + ["iee_config"] * 2 + ["hab"] * 2 + ["hab_full"] * 2 + ["hab_rt"] * 2 + (["fork"] if allow_fork else []))
     if kind == "fork":
         def sub():
             return [gen_op(rng, allow_fork=False) for _ in range(rng.randint(1, 3))]
@@ -300,6 +300,8 @@ def gen_op(rng: random.Random, allow_fork: bool = True) -> dict:
         o["engines"] = rng.choice(["engine0", "engine1", "both"])
         o["x"] = rng.randrange(2)
         o["export"] = rng.random() < 0.3
+    elif kind == "hab_full":
+        o["ws"] = rng.choice(["hab0", "hab0", "hab1"])
     elif kind == "hab_rt":
         o["variant"] = rng.choice(["implicit", "implicit", "explicit_dek"])
         o["x"] = rng.randrange(2)
@@ -325,7 +327,7 @@ def gen_plan(family: str, i: int, rng: random.Random, tier: str) -> dict:
         for o in flat:
             if NEEDS[o["op"]] not in mods:
                 mods.append(NEEDS[o["op"]])
-        others = [m for m in ("sb2", "mbi", "otfad", "iee", "bee", "hab", "habrt") if m not in mods]
+        others = [m for m in ("sb2", "mbi", "otfad", "iee", "bee", "hab", "habrt", "habfull") if m not in mods]
         rng.shuffle(others)
         mods += others[: rng.randint(0, len(others))]
         rng.shuffle(mods)
